@@ -146,9 +146,9 @@ func (r *renderer) render(v ssa.Value, d int) string {
 			// load
 			switch a := x.X.(type) {
 			case *ssa.FieldAddr:
-				return r.render(a.X, d+1) + "." + fieldName(a.X.Type(), a.Field)
+				return r.base(a.X, d+1) + "." + fieldName(a.X.Type(), a.Field)
 			case *ssa.IndexAddr:
-				return r.render(a.X, d+1) + "[" + r.idx(a.Index, d+1) + "]"
+				return r.base(a.X, d+1) + "[" + r.idx(a.Index, d+1) + "]"
 			case *ssa.Alloc:
 				if sv := singleStore(a); sv != nil {
 					return r.render(sv, d+1)
@@ -161,11 +161,11 @@ func (r *renderer) render(v ssa.Value, d int) string {
 		}
 		return x.Op.String() + r.render(x.X, d+1)
 	case *ssa.FieldAddr:
-		return "&" + r.render(x.X, d+1) + "." + fieldName(x.X.Type(), x.Field)
+		return "&" + r.base(x.X, d+1) + "." + fieldName(x.X.Type(), x.Field)
 	case *ssa.Field:
 		return r.render(x.X, d+1) + "." + fieldName(x.X.Type(), x.Field)
 	case *ssa.IndexAddr:
-		return "&" + r.render(x.X, d+1) + "[" + r.idx(x.Index, d+1) + "]"
+		return "&" + r.base(x.X, d+1) + "[" + r.idx(x.Index, d+1) + "]"
 	case *ssa.Index:
 		return r.render(x.X, d+1) + "[" + r.idx(x.Index, d+1) + "]"
 	case *ssa.Lookup:
@@ -235,6 +235,10 @@ func (r *renderer) render(v ssa.Value, d int) string {
 			}
 			return "[" + strings.Join(parts, ", ") + "]"
 		}
+		if iv := initStore(x); iv != nil {
+			// a variable initialised once and then handed out by address
+			return "cell(" + r.render(iv, d+1) + ")"
+		}
 		return "alloc:" + relName(types.TypeString(derefType(x.Type()), nil))
 	case *ssa.TypeAssert:
 		return r.render(x.X, d+1) + ".(" + relName(types.TypeString(x.AssertedType, nil)) + ")"
@@ -286,12 +290,8 @@ func singleStore(a *ssa.Alloc) ssa.Value {
 			// slicing a local array cell (x[:]) — a read-only view for rendering purposes
 		case *ssa.FieldAddr:
 			// read-only field addresses are fine
-			for _, r2 := range *x.Referrers() {
-				if u, ok := r2.(*ssa.UnOp); !ok || u.Op != token.MUL {
-					if _, isDbg := r2.(*ssa.DebugRef); !isDbg {
-						return nil
-					}
-				}
+			if !readOnlyAddr(x, 0) {
+				return nil
 			}
 		default:
 			return nil
@@ -356,14 +356,15 @@ func loopVarying(v ssa.Value, d int) bool {
 
 // isLoopIndex: phi(const, phi±const) — a counting loop variable.
 func isLoopIndex(p *ssa.Phi) bool {
-	if len(p.Edges) != 2 {
+	edges := distinctEdges(p)
+	if len(edges) != 2 {
 		return false
 	}
 	for i := 0; i < 2; i++ {
-		if _, ok := stripConv(p.Edges[i]).(*ssa.Const); !ok {
+		if _, ok := stripConv(edges[i]).(*ssa.Const); !ok {
 			continue
 		}
-		b, ok := stripConv(p.Edges[1-i]).(*ssa.BinOp)
+		b, ok := stripConv(edges[1-i]).(*ssa.BinOp)
 		if !ok || (b.Op != token.ADD && b.Op != token.SUB) {
 			continue
 		}
@@ -378,11 +379,12 @@ func isLoopIndex(p *ssa.Phi) bool {
 
 // sumPhi: phi(init, phi + term) with term not a constant — an accumulation.
 func sumPhi(p *ssa.Phi) (init, term ssa.Value, ok bool) {
-	if len(p.Edges) != 2 {
+	edges := distinctEdges(p)
+	if len(edges) != 2 {
 		return nil, nil, false
 	}
 	for i := 0; i < 2; i++ {
-		b, isB := stripConv(p.Edges[1-i]).(*ssa.BinOp)
+		b, isB := stripConv(edges[1-i]).(*ssa.BinOp)
 		if !isB || b.Op != token.ADD {
 			continue
 		}
@@ -397,7 +399,7 @@ func sumPhi(p *ssa.Phi) (init, term ssa.Value, ok bool) {
 		if _, isC := stripConv(t).(*ssa.Const); isC {
 			continue
 		}
-		return p.Edges[i], t, true
+		return edges[i], t, true
 	}
 	return nil, nil, false
 }
